@@ -342,7 +342,7 @@ theorem progA_certified : Certified progA (cfgA 5) initA RA :=
 theorem progB_certified : Certified progB (cfgB 6) initB RB :=
   ⟨by decide +kernel, by decide +kernel, by decide +kernel, by decide +kernel⟩
 
-theorem progC00_certified : Certified progC00 (cfgC 8) initC RC00 :=
+theorem progC00Old_certified : Certified progC00Old (cfgCOld 8) initCOld RC00Old :=
   ⟨by decide +kernel, by decide +kernel, by decide +kernel, by decide +kernel⟩
 
 /-- (a) stateless pin tracker in use: for all interleavings no panic, no deadlock, no racy state -/
@@ -361,11 +361,11 @@ theorem progB_safe : ∀ (sched : List Choice) (s : Nat) (evs : List SEv),
 
 /-- (c) `Cluster.Shutdown`, restricted: `watchPeers` without its removal branch and `ready()`
 returning by `ctx.Done()` -/
-theorem progC00_safe : ∀ (sched : List Choice) (s : Nat) (evs : List SEv),
-    run progC00 (cfgC 8) initC sched = some (s, evs) →
+theorem progC00Old_safe : ∀ (sched : List Choice) (s : Nat) (evs : List SEv),
+    run progC00Old (cfgCOld 8) initCOld sched = some (s, evs) →
       panicCode s = 0 ∧
-      (allFinished progC00 (cfgC 8) s = true ∨ ∃ c : Choice, (stepC progC00 (cfgC 8) s c).isSome = true) ∧
-      racyB progC00 (cfgC 8) s = false := progC00_certified.safe
+      (allFinished progC00Old (cfgCOld 8) s = true ∨ ∃ c : Choice, (stepC progC00Old (cfgCOld 8) s c).isSome = true) ∧
+      racyB progC00Old (cfgCOld 8) s = false := progC00Old_certified.safe
 
 /-! refutations: one schedule each -/
 
@@ -421,26 +421,26 @@ theorem progB2_panics : ∃ s evs, run progB2 (cfgB 2) (mkInit (cfgB 2) [0]) sch
 
 /-- NewCluster; watchPeers: tick, "not in peerset" (about to Lock); Shutdown (T4): Lock, reads,
 cancel, now in `wg.Wait()`; ready() and the API user leave by `ctx.Done()`; the rest of T0 -/
-def schedC : List Choice :=
+def schedCOld : List Choice :=
   [(0,0),(0,0),(0,0),(0,0),(0,0),(0,0),(1,1),(1,1),(4,0),(4,1),(4,0),(4,0),(4,0),(2,1),(2,0),(3,1),(0,0),(0,0)]
 /-- (c) as in `cluster.go`: DEADLOCK. `watchPeers` (counted in `c.wg`) waits for `shutdownLock`,
 which a `Shutdown` holds while it waits in `c.wg.Wait()` -/
-theorem progC_deadlocks : ∃ s evs, run progC (cfgC 8) initC schedC = some (s, evs) ∧
-    panicCode s = 0 ∧ allFinished progC (cfgC 8) s = false ∧ ∀ c : Choice, stepC progC (cfgC 8) s c = none := by
-  obtain ⟨s, evs, h, hf⟩ := run_witness (P := progC) (cfg := cfgC 8) (init := initC)
-    (sched := schedC) (f := fun r => deadB progC (cfgC 8) r.1) (by decide +kernel)
+theorem progCOld_deadlocks : ∃ s evs, run progCOld (cfgCOld 8) initCOld schedCOld = some (s, evs) ∧
+    panicCode s = 0 ∧ allFinished progCOld (cfgCOld 8) s = false ∧ ∀ c : Choice, stepC progCOld (cfgCOld 8) s c = none := by
+  obtain ⟨s, evs, h, hf⟩ := run_witness (P := progCOld) (cfg := cfgCOld 8) (init := initCOld)
+    (sched := schedCOld) (f := fun r => deadB progCOld (cfgCOld 8) r.1) (by decide +kernel)
   exact ⟨s, evs, h, deadB_sound hf⟩
 
 /-- NewCluster and users; ready(): consensus ready, `close(c.readyCh)` (about to Lock); Shutdown
 (T4): Lock, reads, cancel, now in `wg.Wait()`; watchPeers leaves by `ctx.Done()`; `<-c.Ready()` -/
-def schedC0 : List Choice :=
+def schedC0Old : List Choice :=
   [(0,0),(0,0),(0,0),(0,0),(0,0),(0,0),(0,0),(0,0),(2,0),(2,0),(4,0),(4,1),(4,0),(4,0),(4,0),(1,0),(1,0),(3,0)]
 /-- (c) even without the removal branch: DEADLOCK. `ready()` (counted in `c.wg`) waits for
 `shutdownLock` after `close(c.readyCh)`, a `Shutdown` holds it while it waits in `c.wg.Wait()` -/
-theorem progC0_deadlocks : ∃ s evs, run progC0 (cfgC 8) initC schedC0 = some (s, evs) ∧
-    panicCode s = 0 ∧ allFinished progC0 (cfgC 8) s = false ∧ ∀ c : Choice, stepC progC0 (cfgC 8) s c = none := by
-  obtain ⟨s, evs, h, hf⟩ := run_witness (P := progC0) (cfg := cfgC 8) (init := initC)
-    (sched := schedC0) (f := fun r => deadB progC0 (cfgC 8) r.1) (by decide +kernel)
+theorem progC0Old_deadlocks : ∃ s evs, run progC0Old (cfgCOld 8) initCOld schedC0Old = some (s, evs) ∧
+    panicCode s = 0 ∧ allFinished progC0Old (cfgCOld 8) s = false ∧ ∀ c : Choice, stepC progC0Old (cfgCOld 8) s c = none := by
+  obtain ⟨s, evs, h, hf⟩ := run_witness (P := progC0Old) (cfg := cfgCOld 8) (init := initCOld)
+    (sched := schedC0Old) (f := fun r => deadB progC0Old (cfgCOld 8) r.1) (by decide +kernel)
   exact ⟨s, evs, h, deadB_sound hf⟩
 
 /-! ### 4a. digits -/
